@@ -71,15 +71,27 @@ func (w *world) logStable() error {
 			members = append(members, nm[m.Name])
 		}
 	}
+	// the members' own tables identify a member by name and id: the incarnation of a member that was restarted under its
+	// old address is another member
+	inc := map[string]string{}
+	for i, m := range w.order {
+		inc[m.Incarnation()] = "m" + strconv.Itoa(i)
+	}
+	incName := func(s string) string {
+		if x, ok := inc[s]; ok {
+			return x
+		}
+		return "departed:" + s
+	}
 	conv := func(t cluster.Table) ([][]string, [][]string) {
 		var os, bs [][]string
 		for p := range t.Owners {
 			o, b := []string{}, []string{}
 			for _, x := range t.Owners[p] {
-				o = append(o, name(x))
+				o = append(o, incName(x))
 			}
 			for _, x := range t.Backups[p] {
-				b = append(b, name(x))
+				b = append(b, incName(x))
 			}
 			os, bs = append(os, o), append(bs, b)
 		}
@@ -89,9 +101,10 @@ func (w *world) logStable() error {
 	var coords []string
 	parts := c.Opts.Partitions
 	for _, m := range c.Live() {
-		o, b := conv(m.Table(parts))
+		o, b := conv(m.TableByIncarnation(parts))
 		views = append(views, trace.Ev{"who": nm[m.Name], "owners": o, "backups": b})
-		coords = append(coords, name(m.V.RoutingTable.Discovery().GetCoordinator().Name))
+		co := m.V.RoutingTable.Discovery().GetCoordinator()
+		coords = append(coords, incName(fmt.Sprintf("%s#%d", co.Name, co.ID)))
 	}
 	// the table a client obtains (CLUSTER.ROUTINGTABLE through the last live member)
 	live := c.Live()
@@ -125,9 +138,10 @@ func (w *world) logStable() error {
 		}
 		var names, coord []string
 		for _, x := range ms {
-			names = append(names, name(x.Name))
+			id := incName(fmt.Sprintf("%s#%d", x.Name, x.ID))
+			names = append(names, id)
 			if x.Coordinator {
-				coord = append(coord, name(x.Name))
+				coord = append(coord, id)
 			}
 		}
 		sort.Strings(names)
@@ -192,7 +206,7 @@ func (w *world) logStable() error {
 			hkey := partitions.HKey("rt", k)
 			part := m.V.Primary.PartitionByHKey(hkey)
 			ps = append(ps, int(part.ID()))
-			os = append(os, name(part.Owner().Name))
+			os = append(os, incName(fmt.Sprintf("%s#%d", part.Owner().Name, part.Owner().ID)))
 		}
 		// the client's own computation: hash modulo the number of partitions of the table it fetched
 		hkey := partitions.HKey("rt", k)
@@ -273,6 +287,7 @@ func TestRouting(t *testing.T) {
 				for id := range alive {
 					ids = append(ids, id)
 				}
+				sort.Ints(ids)
 				// bias towards the coordinator (the oldest)
 				victim := ids[rng.Intn(len(ids))]
 				if rng.Intn(3) == 0 {
@@ -285,12 +300,22 @@ func TestRouting(t *testing.T) {
 				evs = append(evs, event{Ev: "leave", M: victim})
 				delete(alive, victim)
 				dead = append(dead, victim)
+			case x == 8 && len(alive) > 1:
+				var ids []int
+				for id := range alive {
+					ids = append(ids, id)
+				}
+				sort.Ints(ids)
+				evs = append(evs, event{Ev: "restart", M: ids[rng.Intn(len(ids))]})
 			default:
 				evs = append(evs, event{Ev: "write"})
 			}
 		}
 		seqs = append(seqs, evs)
 	}
+	// restarts under the old address, of an ordinary member and of the coordinator (always part of the run)
+	seqs = append(seqs, []event{{Ev: "join", M: 2}, {Ev: "join", M: 3}, {Ev: "write"}, {Ev: "restart", M: 2}, {Ev: "write"}, {Ev: "restart", M: 1}, {Ev: "join", M: 4}},
+		[]event{{Ev: "join", M: 2}, {Ev: "write"}, {Ev: "restart", M: 2}, {Ev: "join", M: 3}, {Ev: "leave", M: 1}})
 	evals, nontriv, unstable := 0, 0, 0
 	var notes []string
 	var samples []any
@@ -339,6 +364,33 @@ func TestRouting(t *testing.T) {
 				}
 				w.byModel[e.M] = m
 				w.order = append(w.order, m)
+				changes++
+			case "restart":
+				// the member dies without a leave message and comes back under its old address before the others have
+				// noticed: they learn about the new incarnation from an update of the member's metadata, not from a
+				// leave followed by a join
+				old := w.byModel[e.M]
+				if old == nil || old.Stopped || len(c.Live()) <= 1 {
+					continue
+				}
+				if err := c.Stop(old, false); err != nil {
+					t.Logf("stop: %v", err)
+				}
+				var m *cluster.Member
+				var err error
+				for try := 0; try < 10; try++ {
+					if m, err = c.Rejoin(old); err == nil {
+						break
+					}
+					time.Sleep(30 * time.Millisecond)
+				}
+				if err != nil {
+					t.Logf("restart failed (port busy?): %v", err)
+					e.Ev = "crash"
+				} else {
+					w.byModel[e.M] = m
+					w.order = append(w.order, m)
+				}
 				changes++
 			case "leave":
 				m := w.byModel[e.M]
